@@ -5,7 +5,7 @@ from .build import E, T
 from .h_payload import rich_item, rich_story
 
 PAYLOAD_OPS = ('roStoryAppend', 'roStoryInsert', 'roStoryReplace', 'EAStoryInsert', 'EAStoryReplace', 'EAStoryInsert-end',
-               'roStoryInsert-last',
+               'roStoryInsert-last', 'roStoryInsert-dup', 'EAStoryInsert-dup',
                'roItemInsert', 'roItemReplace', 'EAItemInsert', 'EAItemReplace', 'roMetadataReplace',
                'roDelete', 'roStorySend', 'roReplace')
 
@@ -21,7 +21,7 @@ def fresh_ro(ids, item_ids, c0):
 def make_msg(op, ids, item_ids, n0, c0, c1, n1=None):
     """The payload-carrying message (a new object with the same content on every call)."""
     if op in ('roStoryAppend', 'roStoryInsert', 'roStoryReplace', 'EAStoryInsert', 'EAStoryReplace', 'EAStoryInsert-end',
-              'roStoryInsert-last'):
+              'roStoryInsert-last', 'roStoryInsert-dup', 'EAStoryInsert-dup'):
         st = [rich_story(n0, c0, c1)]
         if n1 is not None:
             st = [rich_story(n1, c0, c1), rich_story(n0, c0, c1)]     # the edited one is the SECOND carried story
@@ -30,6 +30,8 @@ def make_msg(op, ids, item_ids, n0, c0, c1, n1=None):
                 'roStoryReplace': lambda: M.story_replace(ids[0], st),
                 'EAStoryInsert': lambda: M.ea_story_insert(ids[0], st),
                 'EAStoryInsert-end': lambda: M.ea_story_insert(None, st),
+                'roStoryInsert-dup': lambda: M.story_insert(ids[0], [rich_story(ids[1], c0, c1)] + st),
+                'EAStoryInsert-dup': lambda: M.ea_story_insert(ids[0], st + [rich_story(ids[1], c0, c1)]),
                 'roStoryInsert-last': lambda: M.story_insert(ids[1], st),
                 'EAStoryReplace': lambda: M.ea_story_replace(ids[0], st)}[op]()
     if op in ('roItemInsert', 'roItemReplace', 'EAItemInsert', 'EAItemReplace'):
@@ -61,7 +63,8 @@ def _si(it):
 def later_edit(op, edit, ids, item_ids, n0, c1, second=False):
     """A later message that touches what the first one carried."""
     carried_story = n0 if op in ('roStoryAppend', 'roStoryInsert', 'roStoryReplace', 'EAStoryInsert', 'EAStoryInsert-end',
-                                 'roStoryInsert-last', 'EAStoryReplace', 'roReplace') else ids[0]
+                                 'roStoryInsert-last', 'EAStoryReplace', 'roReplace', 'roStoryInsert-dup',
+                                 'EAStoryInsert-dup') else ids[0]
     inner = 'ci1' if second else 'ci0'
     if op in ('roItemInsert', 'roItemReplace', 'EAItemInsert', 'EAItemReplace'):
         inner = n0 if not second else item_ids[-1]
